@@ -31,6 +31,8 @@ inductive Err where
   | indexError
   | keyError
   | zeroDivision
+  | typeError
+  | fileNotFound
   deriving DecidableEq, Repr
 
 /-! ## numeric layer -/
@@ -49,15 +51,12 @@ def sumRange (M : Nat) (g : Nat → K) : K :=
 def prodSkip (M A : Nat) (g : Nat → K) : K :=
   (List.range M).foldl (fun acc B => if B = A then acc else acc * g B) ((1 : Nat) : K)
 
-/-- the two formulas `v_pp = …`, `s_ab = …`; the source holds two copies of them. -/
+/-- the call `alpha = _calculate_alpha(…)` and the two formulas `v_pp = …`, `s_ab = …`; the source holds two copies
+of them.  `s v order`: `order` is `self._order` (what the copy passes on to `_switch_func` is generated text). -/
 structure Route (K : Type) where
+  alpha : K → K → K
   nu : K → K → K
   s : K → Nat → K
-
-/-- the copy in `generate_weights`. -/
-def routeGW : Route K := ⟨nuGW, sGW⟩
-/-- the copy in `compute_atom_weight`. -/
-def routeCAW : Route K := ⟨nuCAW, sCAW⟩
 
 /-- a molecule: number of atoms, positions, (effective) radii; entries `< natom` are meaningful. -/
 structure Mol (K : Type) where
@@ -67,13 +66,18 @@ structure Mol (K : Type) where
 
 variable [LT K] [DecidableLT K]
 
+/-- the copy in `generate_weights`. -/
+def routeGW : Route K := ⟨alpha, nuGW, sGW⟩
+/-- the copy in `compute_atom_weight(…, cutoff)`. -/
+def routeCAW (cutoff : K) : Route K := ⟨fun ra rb => alphaCAW ra rb cutoff, nuCAW, sCAW⟩
+
 /-- `mu_p_n_n[p, A, B] = (|R_A - p| - |R_B - p|) / |R_A - R_B|`. -/
 def mu (m : Mol K) (p : V3 K) (A B : Nat) : K :=
   (dist3 (m.pos A) p - dist3 (m.pos B) p) / dist3 (m.pos A) (m.pos B)
 
 /-- `s_ab[p, A, B]` before the product. -/
 def sPair (r : Route K) (m : Mol K) (order : Nat) (p : V3 K) (A B : Nat) : K :=
-  r.s (r.nu (mu m p A B) (alpha (m.rad A) (m.rad B))) order
+  r.s (r.nu (mu m p A B) (r.alpha (m.rad A) (m.rad B))) order
 
 /-- `np.prod(s_ab, axis=-1)[p, A]`. -/
 def cell (r : Route K) (m : Mol K) (order : Nat) (p : V3 K) (A : Nat) : K :=
